@@ -30,6 +30,11 @@ TAGRE = re.compile(r"<[1-8]>")
 
 def phrase(r, lo=0, hi=8):
     s = " ".join(r.choice(WORDS) for _ in range(r.randint(lo, hi)))
+    t = r.random()
+    if t < 0.06:
+        s = r.choice([" ", "  ", "\t"]) + s          # text is kept exactly as written, blanks included
+    elif t < 0.12:
+        s = s + r.choice([" ", "  ", "\t"])
     return TAGRE.sub("<>", s)
 
 
